@@ -2181,6 +2181,9 @@ class ResetIndex(Elemwise):
             predicate = None
             if not set(flatten(parents, list)).issubset(set(self.frame.columns)):
                 # one of the filters is the Index
+                if self.frame._meta.index.nlevels > 1:
+                    # the levels of a MultiIndex can't be addressed below the reset_index
+                    return
                 name = self.operand("name")
                 if name is no_default and self.frame._meta.index.name is None:
                     name = "index"
